@@ -28,7 +28,7 @@ def gen_schema_tables(rep=None):
 
 P = {
     "id": "C20",
-    "claimed": False,  # flipped once the checks below are all in place
+    "claimed": True,
     "coq_targets": ["Properties/C20.vo", "Run/Eval_C20.vo"],
     "theorems_module": "Properties.C20",
     "theorems": ["C20_load_meets_spec", "C20_env_order_independent", "C20_env_wins_per_leaf", "C20_defaults_fill",
@@ -61,7 +61,28 @@ P = {
                 "mapstructure decoding of the merged tree into the Configuration struct is not modelled: the observable is the merged tree "
                 "that Load hands to the decoder (captured by a decode hook)",
                 "koanf (env provider, maps.Unflatten, Load with merge function, Raw) is transcribed into the model and covered by the correspondence run"],
-    "level_text": "tbd",
-    "level_note": "tbd",
-    "assumptions": [],
+    "level_text": "Proof (kernel-checked, no axioms) about an executable Gallina transcription of the configuration loader "
+                  "(env.go convert/cleanSuffix/koanfFromEnv, merge.go, configloader.go Load, with koanf's env provider, "
+                  "maps.Unflatten and merge-function Load): for all defaults, file trees and environments of the property's domain "
+                  "(scalar values, well-formed names, no two variables for one leaf, all sources agreeing on the shape at every "
+                  "path) outside the shapes of the open findings C20-F3/C20-F4, and for every iteration order of every Go map on "
+                  "the way, the loaded tree shows at every path the environment's node if there is one, else the file's, else "
+                  "the default's (C20_load_meets_spec); corollaries: independence of the enumeration order, environment wins per "
+                  "leaf, defaults fill, file/environment equivalence for every split; merge does not panic on shape-compatible "
+                  "trees.  The schema/loader agreement is a finite vm_compute statement over tables regenerated on every run from "
+                  "schema/config.schema.json and the loader's type registries/config structs, with the 10 disagreeing rows recorded "
+                  "as C20-F1.  The model is tied to the code by running both on ~1200 (quick) / 30000 (thorough) generated loads per "
+                  "run (every observed outcome over 6-30 repetitions must be an outcome of the model for some iteration order) and "
+                  "by replaying ~60 table-derived probes through the real schema validator and the real mechanism loader.",
+    "level_note": "Trusted: Coq kernel/vm_compute; the correspondence harness (generators, decode-hook capture of the merged tree, "
+                  "Gallina rendering); YAML scalar typing is an oracle (observed per case); the sha256 key suffix is modelled by its "
+                  "pre-image; mapstructure decoding into the Configuration struct is not modelled (the observable is the tree handed "
+                  "to the decoder); the translation of the JSON schema and of the Go config structs into the tables "
+                  "(harness/tools/schema, go/ast + python) is trusted and cross-checked by the dynamic probes.  Open findings: "
+                  "C20-F1 (schema/loader disagreements), C20-F3 (cleanSuffix drops all but one variable of a nested list), "
+                  "C20-F4 (nested structure inside a list element stays a flat dotted key); candidate repairs for F3/F4 in fixes/.",
+    "assumptions": ["names and values are in the modelled domain: key segments contain no '.' or '#', list indices <= 2^20, "
+                    "ASCII names (strings.ToLower is modelled on ASCII)",
+                    "the schema stream needs a minimal valid configuration per mechanism type (harness/tools/schema/gen.py BASE); "
+                    "a mechanism type added later is probed uncontrolled (property only) until an entry is added"],
 }
